@@ -502,6 +502,16 @@ fn run(name: &str, a: &[i128]) -> String {
                 Err(e) => format!("1 {}", e.kind() as u8),
             }
         }
+        "fixed_zone_instant_to_wall" => {
+            // offset_minutes e
+            use temporal_rs::provider::NeverProvider;
+            let Ok(en) = temporal_rs::time::EpochNanoseconds::try_from(a[1]) else { return "1 2".into() };
+            let z = Instant::from(en).to_zoned_date_time_iso(temporal_rs::TimeZone::UtcOffset(h::utc_offset_from_minutes(a[0] as i16)));
+            match z.to_plain_datetime_with_provider(&NeverProvider) {
+                Ok(p) => format!("0 {} {} {} {} {} {} {} {} {}", p.iso_year(), p.iso_month(), p.iso_day(), p.hour(), p.minute(), p.second(), p.millisecond(), p.microsecond(), p.nanosecond()),
+                Err(e) => format!("1 {}", e.kind() as u8),
+            }
+        }
         "negate_mode" => format!("{}", vharness::common::mode_idx(mode(a[0]).negate())),
         "unsigned_mode" => {
             use temporal_rs::options::UnsignedRoundingMode as U;
